@@ -4,6 +4,18 @@
 //! Piece index order is the engine's `Piece as usize`: pawn 0, knight 1, bishop 2, rook 3, queen 4, king 5.
 #![allow(dead_code)]
 
+/// reachability cover used by the harnesses; compiled out when VERIF_NOCOVER is set at build time
+/// (the replay step regenerates the counterexample without covers so that Kani's concrete playback
+/// emits the test for the failing assertion rather than for a cover that precedes it)
+#[macro_export]
+macro_rules! vcover {
+    ($($t:tt)*) => {
+        if option_env!("VERIF_NOCOVER").is_none() {
+            kani::cover!($($t)*);
+        }
+    };
+}
+
 pub const P: usize = 0;
 pub const N: usize = 1;
 pub const B: usize = 2;
